@@ -58,7 +58,9 @@ def gen_sched_cases(seed, ncases, types, orders=(4,), nsched=5, kinds="IIUDDDSCC
             for th in range(2, nth + 1):
                 progs[th] = gen_prog(rng, U, rng.randint(1, maxops), th, list(ks), ntags, base)
         cases.append(dict(id="c%d" % i, type=typ, order=order, keys=gen.key_table(rng, typ, U), init=init, progs=progs,
-                          sched=["rand %d %d %d" % (rng.randrange(10**9), nsched, 400)], dump=dump))
+                          sched=["rand %d %d %d" % (rng.randrange(10**9), nsched, 400),
+                                 # PCT: few, randomly placed preemptions on long stretches (depth 2 or 3)
+                                 "pct %d %d %d %d" % (rng.randrange(10**9), nsched, rng.choice([2, 2, 3]), 80)], dump=dump))
     return cases
 
 
